@@ -162,6 +162,12 @@ def cases(tier, rng):
     # the wrap at connection level: server out-queue starts just below the wrap
     cs.append({"line": "c07l2 65500 65500 fates 0 " + " ".join("sw %s cw %s" % (hx(bytes([i % 251] * 3)), hx(bytes([(i + 7) % 251] * 2))) for i in range(60)),
                "model": False, "key": "l2-wrap", "tags": {"src": "l2-connection", "recent": True, "faults": 0, "writes": 120, "len": 120}})
+    # the out-queues inside the real connection objects (not alone): a Write that returns success has had its chunks acknowledged, also when
+    # the connection is closed under it and also when a write deadline is set (the writer scripts of C17's close protocol; implementation only)
+    from . import c17 as _c17
+    for c in _c17.close_cases(tier, core_rng_fork(rng)):
+        if c["line"].startswith("c17q") and c["tags"]["variant"].startswith("writer"):
+            cs.append(dict(c, model=False, tags=dict(c["tags"], src="connection-writers", len=c["tags"]["n"])))
     return cs
 
 
@@ -253,8 +259,17 @@ def parse_end(p):
     return d, p[:i]
 
 
+def core_rng_fork(rng):
+    return rng.fork() if hasattr(rng, "fork") else rng
+
+
 def oracle(case, impl):
     p = impl.split()
+    if case["line"].startswith("c17q"):
+        from . import c17 as _c17
+        if not p or p[0] in ("panic", "died", "timeout", "harness-error", "setup"):
+            return [("crash", "connection-level writer script crashed: " + impl[:200])]
+        return [(sig, msg) for sig, msg in _c17.oracle_q(case, impl) if sig.startswith("write-ok-without-ack")]
     if case["line"].startswith("c07l2"):
         if not p or p[0] in ("panic", "died", "timeout", "harness-error"):
             return [("crash", "connection-level scenario crashed: " + impl[:200])]
@@ -286,6 +301,11 @@ def oracle(case, impl):
 
 
 def shrink(case):
+    if case["line"].startswith("c17q"):
+        from . import c17 as _c17
+        for c in _c17.shrink(case):
+            yield dict(c, model=False)
+        return
     if case["line"].startswith("c07l2"):
         return
     toks = case["line"].split()
@@ -305,8 +325,8 @@ def shrink(case):
 def distribution(cs):
     d = {}
     for c in cs:
-        t = c["tags"]
-        k = "%s/len<%d" % (t["src"], 10 ** len(str(t["len"])))
+        t = c.get("tags") or {}
+        k = "%s/len<%d" % (t.get("src", "corpus"), 10 ** len(str(t.get("len", len(c["line"].split())))))
         d[k] = d.get(k, 0) + 1
     return d
 
